@@ -74,7 +74,7 @@ def showTarget (T : Target) : String :=
   match T.exit, T.stopping with
   | some (r, t), _ => s!"Stopped:{r.render}@{t}"
   | none, some (_, ts) => s!"PostStop@{ts}"
-  | none, none => if T.starting then "Starting" else "Running"
+  | none, none => if T.starting then (if T.draining then "Draining" else "Starting") else "Running"
 
 /-- attempts of the sending timers beyond the lengths recorded in `old` -/
 def newAttempts (old new : List Timer) : List (Nat × Nat × Nat) :=
@@ -169,7 +169,7 @@ def parseImpl? (s : String) : Option ImplObs :=
       let ps ← match field? tgt "PostStop@" with
         | some ts => ts.toNat?.map some
         | none => some none
-      let exit ← if tgt == "Running" || tgt == "Starting" || ps.isSome then some none else
+      let exit ← if tgt == "Running" || tgt == "Starting" || tgt == "Draining" || ps.isSome then some none else
         match field? tgt "Stopped:" with
         | some rest =>
           match rest.splitOn "@" with
